@@ -1,5 +1,5 @@
 """Per-property configuration of bin/check: theorem files, harness commands, correspondence stages."""
-from vlib import stage_pure, stage_gw
+from vlib import stage_pure, stage_gw, stage_nats
 
 PROPS = {
     "C05": {
@@ -222,5 +222,35 @@ PROPS = {
         "technique": "Coq proofs (inapplicable events discarded as a whole; diff indices always in range; throttle never panics) + fault injection into scheduled histories of the real gateway, one process per history, with the Coq monitors checking that bad input has no effect",
         "level_text": "Decision logic for discarding bad input proved on the cache-side model (tied by direct-drive differential); process survival and absence of stalls checked by fault injection on the real code",
         "level_note": "trusted: Coq kernel, extraction, the harness (mock messaging system, consistent mock service, scheduler hooks, frame abstraction in harness/internal/gw); task atomicity (DESIGN section 4); modelled not verified: encoding/json, gorilla/websocket",
+    },
+    "C16": {
+        "coq": ["Props/C16.v"],
+        "level": "proof",
+        "harness": ["purediff"],
+        "stages": [("pure", stage_pure, {"suites": ["render", "httppath"], "n_quick": 6000, "n_thorough": 150000})],
+        "rule": "random subscription graphs of 1-5 resources (models, collections, error leaves) with references to any node including "
+                "itself and ancestors (cycles of any length), soft references, data values, primitives and keys needing JSON escaping, under 3 apiPath "
+                "prefixes, run through the real encoders (json and jsonflat) by a verif-tagged export; the body must parse as JSON without duplicate "
+                "members and equal the model's output up to object member order; non-trivial = more than one resource",
+        "assumptions": ["encoding/json string escaping of keys and hrefs is taken from the harness's own json.Marshal calls", "HTTP status/headers of POST/HEAD are checked on gateway traces (http profile), not here"],
+        "technique": "Coq proof (encoder output = print of the expansion tree, for all graphs; fuel n+1 always suffices, i.e. termination on cyclic graphs) + differential correspondence of both real encoders with the extracted model on random cyclic graphs",
+        "level_text": "Unbounded theorems about the Gallina mirrors of both encoders; tied to the code by running the real encoders on synthetic subscription graphs on every check",
+        "level_note": "trusted: Coq kernel, extraction, Go harness and its JSON comparison (ocaml/jsonc.ml), the verif-tagged export VerifEncodeGET; modelled not verified: encoding/json, net/http",
+    },
+    "C18": {
+        "coq": ["Props/C18.v"],
+        "level": "proof",
+        "harness": ["natsrun"],
+        "stages": [("nats", stage_nats, {"n_quick": 300, "n_thorough": 3000})],
+        "rule": "the real nats.Client over TCP against an in-process fake NATS server (INFO/CONNECT/PING/SUB/UNSUB/PUB/HPUB/MSG/HMSG): "
+                "concurrent requests with per-request reply behaviour drawn from {reply, duplicate reply, 503 no responders, silence, "
+                "pre-response then reply after the default timeout, pre-response then silence, reply after the timeout, two pre-responses, "
+                "reply after the extended timeout, subject beyond the control line}; an event subscription with interleaved publishes and an "
+                "Unsubscribe; an over-long namespace; a server disconnect; observed completions per request compared with the model's, "
+                "timing margins >= 60 ms; distinct non-trivial = distinct behaviours",
+        "assumptions": ["nats.go and TCP are not modelled", "a wrong kind of completion must persist over three runs (machine load); exactly-once and early timeouts are reported at once"],
+        "technique": "Coq proof (request life-cycle machine: completion at most once, exactly once when no longer pending, a time-out path alive while pending; all interleavings) + differential of the real adapter against a fake NATS server with the extracted machine",
+        "level_text": "The request state machine is proved for every interleaving the client mutex can decide; tied to the code by observing the real adapter over TCP with real timers",
+        "level_note": "trusted: Coq kernel, extraction, the fake NATS server and its timing (harness/cmd/natsrun); modelled not verified: nats.go, TCP, Go timers",
     },
 }
